@@ -755,6 +755,41 @@ func (w *world) opCraft(op ledgerOp) {
 	w.emit(event{"a": "Craft", "new": []event{w.vtxRec(id)}})
 }
 
+// opForge offers a node a forged copy of a genuine vertex: same hash, same sealing signature, same transaction, but
+// rewritten parents (kind "parents": both point at the genesis vertex), weight ("weight") or amount ("amount").
+// Whatever the node has seen of the genuine vertex before, the copy is never admitted.
+func (w *world) opForge(op ledgerOp) {
+	n := w.nodes[op.N]
+	id, ok := w.realID(op.V)
+	if n == nil || !ok || len(w.vtx) == 0 {
+		return
+	}
+	vc := w.vtx[id-1]
+	switch op.Kind {
+	case "weight":
+		vc.Weight += 7
+	case "amount":
+		vc.Transaction.Spice.Currency += 1000
+	default:
+		vc.LeftParentHash, vc.RightParentHash = w.vtx[0].Hash, w.vtx[0].Hash
+	}
+	var err error
+	var pv any
+	done := make(chan struct{})
+	go func() {
+		defer close(done)
+		defer func() { pv = recover() }()
+		err = n.ab.AddLeaf(w.ctx, &vc)
+	}()
+	select {
+	case <-done:
+	case <-wedgeTimer(1):
+		w.emit(event{"a": "Wedged", "n": op.N, "where": "forge"})
+		return
+	}
+	w.emitSt(event{"a": "DeliverForged", "n": op.N, "v": id, "kind": op.Kind, "res": classify(err, pv)}, n)
+}
+
 // hookCtx is a context whose Done channel never closes; its at-th inspection runs a callback once.
 // Ledger walks inspect the context once per visited ancestor, so the callback runs in the middle of a walk,
 // while the operation holds its locks - without any hook inside the repository.
@@ -1100,6 +1135,8 @@ func (w *world) run(b *behaviour) {
 				w.opLoad(op)
 			case "netload":
 				w.opNetLoad(op)
+			case "forge":
+				w.opForge(op)
 			case "compare":
 				if w.nodes[op.N] != nil && w.nodes[op.M] != nil {
 					w.emit(event{"a": "Compare", "n": op.N, "m": op.M})
